@@ -483,3 +483,35 @@ package router
 //@   let we = ite(c.DispatchedPortEnd != nil, uint16(*c.DispatchedPortEnd), end)
 //@   ensures c.DataPlane.dispatchedPortStart == ws && c.DataPlane.dispatchedPortEnd == we
 //@   ensures forall k string :: inmap(c.DataPlane.underlays, k) ==> provStart[c.DataPlane.underlays[k]] == ws && provEnd[c.DataPlane.underlays[k]] == we && provRedirect[c.DataPlane.underlays[k]] == 30041
+
+//@ # ---- C12: one-hop paths
+//@ import onehop "github.com/scionproto/scion/pkg/slayers/path/onehop"
+//@ # re-serialisation of the SCION header in place (byte-level contract: see C07)
+//@ func updateSCIONLayer
+//@   requires s.Path != nil
+//@   modifies arr(rawPkt)
+
+//@ macro ohpOf(p) = asptr(p.scionLayer.Path, *onehop.Path)
+//@ func (*scionPacketProcessor).processOHP
+//@   props C12
+//@   requires p.d != nil && p.pkt != nil && p.mac != nil && len(p.macInputBuffer) >= 16 && p.scionLayer.Path != nil && p.lastLayer != nil
+//@   requires typeis(p.scionLayer.Path, *onehop.Path) ==> ohpOf(p) != nil
+//@   requires p.d.interfaces[p.pkt.egress] != nil
+//@   requires len(p.scionLayer.RawDstAddr) == 4*(1+int(p.scionLayer.DstAddrType&3))
+//@   let o = ohpOf(p)
+//@   let key = path.hkey(p.mac)
+//@   let seg0 = o.Info.SegID
+//@   let ts = o.Info.Timestamp
+//@   let fh = o.FirstHop
+//@   let out = p.ingressFromLink == 0
+//@   ensures result == pForward || result == pDiscard
+//@   ensures result == pForward ==> typeis(p.scionLayer.Path, *onehop.Path) && o.Info.ConsDir
+//@   # leaving the AS: source is local, first hop MAC valid, destination is the neighbour behind the first hop's egress
+//@   ensures result == pForward && out ==> p.scionLayer.SrcIA == p.d.localIA && p.scionLayer.DstIA == p.d.neighborIAs[fh.ConsEgress] && p.d.neighborIAs[fh.ConsEgress] != 0
+//@   ensures result == pForward && out ==> fh.Mac[0] == path.macByte(key, seg0, ts, fh.ExpTime, fh.ConsIngress, fh.ConsEgress, 0) && fh.Mac[1] == path.macByte(key, seg0, ts, fh.ExpTime, fh.ConsIngress, fh.ConsEgress, 1) && fh.Mac[2] == path.macByte(key, seg0, ts, fh.ExpTime, fh.ConsIngress, fh.ConsEgress, 2) && fh.Mac[3] == path.macByte(key, seg0, ts, fh.ExpTime, fh.ConsIngress, fh.ConsEgress, 3) && fh.Mac[4] == path.macByte(key, seg0, ts, fh.ExpTime, fh.ConsIngress, fh.ConsEgress, 4) && fh.Mac[5] == path.macByte(key, seg0, ts, fh.ExpTime, fh.ConsIngress, fh.ConsEgress, 5)
+//@   ensures result == pForward && out ==> p.pkt.egress == fh.ConsEgress && o.Info.SegID == seg0^(uint16(fh.Mac[0])<<8|uint16(fh.Mac[1])) && o.FirstHop == fh && o.Info.Timestamp == ts
+//@   # entering the AS: destination is local, source is the neighbour on the receiving interface; the second hop is completed
+//@   ensures result == pForward && !out ==> p.scionLayer.DstIA == p.d.localIA && p.scionLayer.SrcIA == p.d.neighborIAs[p.ingressFromLink]
+//@   ensures result == pForward && !out ==> o.SecondHop.ConsIngress == p.ingressFromLink && o.SecondHop.ConsEgress == 0 && o.SecondHop.ExpTime == fh.ExpTime && !o.SecondHop.IngressRouterAlert && !o.SecondHop.EgressRouterAlert
+//@   ensures result == pForward && !out ==> o.SecondHop.Mac[0] == path.macByte(key, seg0, ts, fh.ExpTime, p.ingressFromLink, 0, 0) && o.SecondHop.Mac[1] == path.macByte(key, seg0, ts, fh.ExpTime, p.ingressFromLink, 0, 1) && o.SecondHop.Mac[2] == path.macByte(key, seg0, ts, fh.ExpTime, p.ingressFromLink, 0, 2) && o.SecondHop.Mac[3] == path.macByte(key, seg0, ts, fh.ExpTime, p.ingressFromLink, 0, 3) && o.SecondHop.Mac[4] == path.macByte(key, seg0, ts, fh.ExpTime, p.ingressFromLink, 0, 4) && o.SecondHop.Mac[5] == path.macByte(key, seg0, ts, fh.ExpTime, p.ingressFromLink, 0, 5)
+//@   ensures result == pForward && !out ==> o.Info.SegID == seg0 && o.FirstHop == fh && o.Info.Timestamp == ts
